@@ -235,12 +235,19 @@ def run(chk, replay=None):
           ('catalog.resampled_magnitude_test', lambda f, o: ce.resampled_magnitude_test(f, o, seed=4), False),
           ('catalog.MLL_magnitude_test', lambda f, o: ce.MLL_magnitude_test(f, o, seed=4), False)]
 
-    def obs_cat(evs, order):
+    def obs_cat(evs, order, region=None):
         data = []
         for j in order:
             e = world.event_tuple({'u': 900 + j, 'b': evs[j], 'm': True, 's': True}, 7000 + j)
             data.append(('o%d' % j,) + tuple(e[1:]))
-        return CSEPCatalog(data=data, region=world.make_region(), name='obs')
+        return CSEPCatalog(data=data, region=region if region is not None else world.make_region(), name='obs')
+
+    def reversed_region():
+        """the cells of the catalog world's region in the opposite storage order"""
+        from csep.core import regions as _regions
+        r0 = world.make_region()
+        org = numpy.asarray(r0.origins())[::-1]
+        return _regions.create_space_magnitude_region(CartesianGrid2D.from_origins(org, dh=float(r0.dh)), numpy.array(world.mags))
 
     for t in range(6 if quick else 240):
         J = rng.choice([3, 6, 25])
@@ -272,6 +279,17 @@ def run(chk, replay=None):
             pe_ = runit(cats, p_ev)
             pc_ = runit([cats[i] for i in p_cat], ident)
             chk.count(3)
+            if src == 'list' and simfree:
+                # cells re-ordered: the very catalog objects a first forecast has evaluated (they are bound to its region by
+                # then) are handed to a second forecast on the region with the cells stored in the opposite order
+                from csep.core.forecasts import CatalogForecast
+                f1 = build_forecast(world, {'src': 'list', 'filt': False, 'spat': False}, cats, path)
+                with contextlib.redirect_stdout(io.StringIO()):
+                    guarded_timeout(30, fn, f1, obs_cat(obs_evs, ident))
+                    f2 = CatalogForecast(catalogs=list(f1.catalogs), region=reversed_region(), name='f', n_cat=len(cats))
+                    pcell = guarded_timeout(30, fn, f2, obs_cat(obs_evs, ident, region=reversed_region()))
+                chk.count(2)
+                add('cells', name, base, pcell, False, True, True, {'id': 'c%d' % t, 'J': J, 'obs': obs_evs, 'perm': 'cells reversed, catalogs re-used'})
             add('events', name, base, pe_, not simfree, True, True, {'id': 'c%d' % t, 'J': J, 'obs': obs_evs, 'perm': p_ev})
             add('catalogs', name, base, pc_, False, simfree, simfree, {'id': 'c%d' % t, 'J': J, 'obs': obs_evs, 'perm': p_cat[:12], 'src': src})
 
